@@ -377,10 +377,10 @@ static std::string top_frame(const std::string &rep)
     std::string first;
     for (auto &o : offs) {
         std::string fn = A2L.count(o) ? A2L[o] : "?";
-        if (fn.find("SymEngine::") != std::string::npos && fn.find("__sanitizer") == std::string::npos
-            && fn.find("RCPBasicAware") == std::string::npos && fn.find("CEREAL") == std::string::npos
-            && fn.find("cereal::") != 0)
-            return strip_fn(fn);
+        std::string st = strip_fn(fn);
+        if (st.rfind("SymEngine::", 0) == 0 && st.find("RCPBasicAware") == std::string::npos && st.find("RCP::") == std::string::npos
+            && st != "SymEngine::rcp_static_cast" && st != "SymEngine::make_rcp")
+            return st;
         if (first.empty() && fn != "?" && fn != "??" && fn.find("__interceptor") == std::string::npos
             && fn.find("__sanitizer") == std::string::npos && fn.find("__asan") == std::string::npos
             && fn.find("__ubsan") == std::string::npos)
@@ -798,7 +798,14 @@ int main(int argc, char **argv)
     consider(function_symbol("g", {x, x}), "g(x, x)");
     consider(add(sin(x), pow(y, sin(x))), "add(sin(x), pow(y, sin(x)))");
     // unary constructors on every tame leaf; binary constructors on pairs of a small sub-alphabet (one leaf per kind)
-    std::set<std::string> small = {"x", "y", "1", "2", "1/2", "1.5", "I", "True", "False", "EmptySet", "Reals", "Integers", "dummy()"};
+    // plus a relational, an interval and a finite set as operands, so that And/Or/Xor/Not/Piecewise/ConditionSet/Union/
+    // Complement/Contains seeds with real children exist
+    LV.push_back({"Lt(x, y)", Lt(x, y)});
+    LV.push_back({"Eq(y, 2)", Eq(y, integer(2))});
+    LV.push_back({"interval[](0, 1)", interval(integer(0), integer(1), false, false)});
+    LV.push_back({"finiteset1(y)", finiteset({y})});
+    std::set<std::string> small = {"x", "y", "1", "2", "1/2", "1.5", "I", "True", "False", "EmptySet", "Reals", "Integers", "dummy()",
+                                   "Lt(x, y)", "Eq(y, 2)", "interval[](0, 1)", "finiteset1(y)"};
     double tc0 = now();
     for (size_t ia = 0; ia < LV.size(); ia++)
         for (size_t ci = 0; ci < CT.size(); ci++) {
@@ -905,6 +912,13 @@ int main(int argc, char **argv)
         total_bytes += s.d.bytes.size();
         for (auto &k : s.d.kind)
             kinds[kind_base(k)]++;
+    }
+    {
+        std::string sj = "\"seeds\":[";
+        for (size_t i = 0; i < SEEDS.size(); i++)
+            sj += std::string(i ? "," : "") + "{\"recipe\":" + jstr(SEEDS[i].recipe) + ",\"bytes\":" + std::to_string(SEEDS[i].d.bytes.size())
+                  + ",\"value\":" + jstr(SEEDS[i].cls) + "}";
+        R.extra_json = sj + "]";
     }
     R.counters["seeds"] = SEEDS.size();
     R.counters["seed_bytes_total"] = total_bytes;
